@@ -4,3 +4,10 @@ from tables import fp
 # C50
 fp("dask/bytes/core.py", "read_bytes", "read_block_from_file")
 fp("dask/bag/text.py", "read_text", "file_to_blocks", "decode", "attach_path")
+
+# C49
+fp("dask/bag/random.py", "sample", "choices", "_sample_reduce", "_weighted_sampling_without_replacement", "_sample",
+   "_finalize_sample", "_sample_map_partitions", "_sample_with_replacement", "_sample_with_replacement_map_partitions",
+   "_geometric")
+fp("dask/bag/core.py", "Bag.random_sample", "random_sample", "random_state_data_python", "Bag.reduction",
+   "empty_safe_apply", "empty_safe_aggregate")
